@@ -15,11 +15,54 @@ BASE_NOTE = ("Trusted: Coq 8.16.1 kernel + vm_compute (no native_compute, no axi
 
 # id -> (category, technique, level text, design ref, extra note)
 CLAIMS = {
+    "C04": ("proof", "Coq proof of the key code's minimum distance (vm_compute sweep over regenerated tables, lifted by induction) + differential on incremental/recomputed keys",
+            "PARTIAL proof. Proved: any 1..4 distinct entries of the regenerated key tables XOR to a non-zero value (positions differing in up to four "
+            "key features get different keys). Not proved yet: incremental = recomputed, key = XOR of features; those rest on the correspondence "
+            "run (every legal move and null move of sampled positions, whole play-outs, all positions met: equal features <=> equal key).",
+            "DESIGN.md section 6 C04", ""),
+    "C05": ("proof", "Coq lemmas on the model of `moves`/`position` + differential against the token-denotation specification",
+            "PARTIAL proof. Proved on the model: one key per position reached, in order; an unknown token changes nothing; only legal moves are "
+            "ever played. Agreement of the token matcher with the specification `denotes` (both notations, conventional castling strings) "
+            "rests on the correspondence run.", "DESIGN.md section 6 C05", ""),
+    "C07": ("proof", "Coq proof parse => validate for every string in both arithmetic modes + differential in both builds",
+            "PARTIAL proof. Proved for every string and both modes: an accepted string yields a position that passed validate with the key "
+            "recomputed from scratch, and what validate guarantees (spelled out). Bitboard consistency (parity argument) and completeness on D "
+            "rest on the correspondence run (executable Valid on each accepted string, both builds).", "DESIGN.md section 6 C07", ""),
     "C10": ("proof", "Coq proof: vm_compute sweep over regenerated magics lifted to all occupancies; exhaustive differential vs geometry",
             "Full proof about the model: magic lookup (table generated as in build.rs, indexed as in magic.rs, constants regenerated "
             "from the source on every run) equals the coordinate ray walk for every square and every occupancy (no bound), and "
-            "every index stays inside the table. Tie: all 107,648 reduced lookups plus random full occupancies, leapers, rays and "
-            "bit primitives of the real library compared with geometry computed independently.", "DESIGN.md section 6 C10", ""),
+            "every index stays inside the table. Leaper and ray-fill functions: exhaustive/random differential against geometry "
+            "computed independently (their set-wise theorems are not proved yet).", "DESIGN.md section 6 C10", ""),
+    "C13": ("proof", "Coq proof by induction on fuel (history preserved through negamax and the root loop) + repeated real searches",
+            "Proof on the model: every search that returns gives back the history it was given (any limit, window, table), the position is "
+            "passed by value, and the model is a function of its inputs. That the Rust has no hidden input is measured: state snapshots and "
+            "each search executed twice in separate processes, incl. a node-budget sweep on middlegame roots.", "DESIGN.md section 6 C13",
+            "modulo fuel: statements are about searches that return"),
+    "C14": ("proof", "Coq proof on the root loop (iterations in order, node/depth limit clauses, bestmove = last pv) + differential; time = measurement",
+            "Proof on the model for: iterations reported consecutively from 1, nothing deeper than a depth limit, no iteration >= 2 reported at or "
+            "beyond a node limit, answer = first move of the last pv. Score bounds: checked by run. Time clause: wall-clock measurement "
+            "(budget + 250 ms). Depth limits >= MAX_DEPTH: recorded known finding.", "DESIGN.md section 6 C14", "modulo fuel"),
+    "C15": ("proof", "Coq proof for the command layer (only `position` with a rejected FEN can panic) + both binaries on generated scripts",
+            "PARTIAL by nature. Proved: in the model of the command loop no line other than `position` with a FEN the parser rejects reaches a "
+            "panic. Arithmetic traps inside search/movegen, stack, memory, pipes and EOF cannot be carried by the model: covered by running the "
+            "optimised and the checked binary on generated scripts (exit status, stderr, readyok/bestmove counts, transcript vs model).",
+            "DESIGN.md section 6 C15", ""),
+    "C16": ("proof", "Coq proof: states are identical after ucinewgame given equal options; position depends on the flag only; process-level differential",
+            "Proof on the model: after ucinewgame two sessions with equal option values and table size are in the same state, so all later "
+            "output coincides; without ucinewgame `position` fixes position and history. Hidden process state is measured against fresh processes.",
+            "DESIGN.md section 6 C16", ""),
+    "C17": ("proof", "Coq proof of antisymmetry and board-only dependence (bswap involution, popcount invariance, odd truncating division) + differential",
+            "Proved: evaluation reads the eight bitboards only (hence colour-blind: the mirrored twin is the same boards with the turn flag "
+            "negated) and is the exact negative with the turn passed, for all boards below 2^64. The numeric bound is checked on every "
+            "generated position, not proved.", "DESIGN.md section 6 C17", ""),
+    "C18": ("proof", "Coq refinement proof over arbitrary operation sequences + differential on random sequences",
+            "Full proof on the model (generic entry type): every finite op sequence gives the outputs of the last-stored-per-slot specification; "
+            "poll-after-add, clear, resize length and provenance, never-invented, fill indicator range.", "DESIGN.md section 6 C18",
+            "size_of::<TTEntry>() = 24 is measured by the harness and compared"),
+    "C19": ("proof", "Coq proof: generic fail-soft alpha-beta theorem instantiated with the engine's evaluation/captures/ordering + differential vs exact values",
+            "Full proof on the model: for every position, window and fuel on which both finish, qsearch returns the exact capture-tree value inside "
+            "the window, an upper bound at or below alpha, a lower bound at or above beta; full window exact; ordering is a permutation.",
+            "DESIGN.md section 6 C19", "modulo fuel; eval/legal_captures/makemove of the model are tied to the code by C17/C08/C02 runs"),
 }
 
 NOT_YET = {}
